@@ -25,6 +25,7 @@ if [ -n "${KEEP_REPLAY:-}" ]; then
   for c in "$@"; do
     f=$(ls "$OUT/replays/$c/"*.json 2>/dev/null | head -1)
     [ -n "$f" ] && cp "$f" "$KEEP_REPLAY/$c.json"
+    cp "$OUT/$c.log" "$KEEP_REPLAY/$c.log" 2>/dev/null
   done
 fi
 git -C /repo worktree remove --force "$W"
